@@ -2,6 +2,7 @@ package props
 
 import (
 	"context"
+	"errors"
 	"fmt"
 	"hash/fnv"
 	"strings"
@@ -50,12 +51,17 @@ func runC08(t *testing.T, c *choice.Stream, r *Result, opt RunOpt) {
 		stream []byte
 		bounds []int // offsets of packet starts within stream
 	}
+	// the caller has seen enough at the first block: its callback cancels the
+	// query and returns nil. How many more callbacks run must not depend on how
+	// much of the response had already arrived
+	cancelInCb := false
 	build := func() *built {
 		sc := choice.New(scSeed)
 		cf := DrawConf(sc)
 		cf.ReadTimeout = []time.Duration{0, 10 * time.Millisecond, time.Second, ch.NoTimeout}[sc.Draw("rt", 4)]
 		cf.HandshakeTimeout = []time.Duration{0, 300 * time.Millisecond, 2 * time.Second}[sc.Draw("hs.timeout", 3)]
 		rs := drawResponse(sc, cf, 6)
+		cancelInCb = sc.Bool("cancel.in.callback", 1, 6)
 		b := &built{cf: cf, rs: rs}
 		for _, p := range rs.packets {
 			b.bounds = append(b.bounds, len(b.stream))
@@ -164,7 +170,7 @@ func runC08(t *testing.T, c *choice.Stream, r *Result, opt RunOpt) {
 			e.Sim.DrawStrategy()
 			e.Sim.StallProb = 0
 			e.Sim.SetFair()
-			e.Sim.MaxSteps = 400000
+			e.Sim.MaxSteps = 4000000
 			e.W.DeliverMode = 0
 			srv := simnet.NewServer(b.cf.ServerRev, script)
 			conn := e.W.NewConn(srv)
@@ -187,7 +193,21 @@ func runC08(t *testing.T, c *choice.Stream, r *Result, opt RunOpt) {
 					qctx, cancel = context.WithTimeout(ctx, b.rs.farDeadline)
 					defer cancel()
 				}
+				if cancelInCb {
+					var cancel context.CancelFunc
+					qctx, cancel = context.WithCancel(qctx)
+					defer cancel()
+					b.rs.rec.OnCall = func(name string, k int) {
+						if name == "result" && k == 1 {
+							cancel()
+							sub.Fire("callback_cancels_its_query")
+						}
+					}
+				}
 				derr := cl.Do(qctx, b.rs.query)
+				if cancelInCb && derr != nil && errors.Is(derr, context.Canceled) {
+					derr = context.Canceled // who noticed first is a matter of timing, not of the class
+				}
 				var sb strings.Builder
 				for _, ev := range b.rs.rec.Events {
 					sb.WriteString(ev)
